@@ -172,8 +172,8 @@ FAMILIES = [
                   'the final closer, attacker placed after the victim)'),
     Family('slow_or_p2', fam_channel,
            quick=dict(np_=1, nc=2, fault_kinds=[Fault.NONE], slow=True, close_modes=2),
-           thorough=dict(np_=2, nc=2, fault_kinds=[Fault.NONE, Fault.CANCEL], slow=False,
-                         placements=False, _max_wall=1200),
+           thorough=dict(np_=2, nc=2, fault_kinds=[Fault.NONE], slow=False, close_modes=2,
+                         _max_paths=900000, _max_wall=1200),
            reach=['none', 'put-after-close', 'await-on-closed'],
            bounds='quick: 1 producer, 2 consumers, consumer 0 slow, no fault; thorough: 2 producers x 2 puts, 2 consumers'),
     Family('p2x1', fam_channel,
